@@ -203,9 +203,9 @@ func (d docGen) doc(trap bool) interface{} {
 	if rn(25) == 24 {
 		return d.bigDoc()
 	}
-	if rn(120) == 119 {
-		// very deep and narrow: depth guards and recursion limits (64, 100, 128, 256 levels)
-		return d.deepChain([]int{20, 65, 70, 101, 130, 260}[rn(6)])
+	if rn(250) == 249 {
+		// very deep and narrow: deeper documents blow up result sizes under repeated recursive descent (130 levels: millions of overlapping results)
+		return d.deepChain([]int{17, 20, 33, 40}[rn(4)])
 	}
 	switch rn(6) {
 	case 0: // array of members
@@ -279,8 +279,29 @@ func (d docGen) variant(v interface{}) interface{} {
 				out = out[:1+rn(len(out)-1)]
 			}
 		case 5:
+			// (only leaves or small members are added: copying sub-trees at every level of a
+			// deep document would grow it exponentially)
 			for k := 1 + rn(4); k > 0 && len(out) > 0; k-- {
-				out = append(out, d.variant(out[rn(len(out))]))
+				e := out[rn(len(out))]
+				if m, ok := e.(map[string]interface{}); ok && len(m) <= 4 {
+					c := map[string]interface{}{}
+					for _, kk := range sortedKeys(m) {
+						switch m[kk].(type) {
+						case map[string]interface{}, []interface{}:
+							c[kk] = d.leaf()
+						default:
+							c[kk] = m[kk]
+						}
+					}
+					out = append(out, c)
+					continue
+				}
+				switch e.(type) {
+				case map[string]interface{}, []interface{}:
+					out = append(out, d.leaf())
+				default:
+					out = append(out, e)
+				}
 			}
 		}
 		return out
